@@ -49,6 +49,10 @@ func policyFor(focus, mode string) policy {
 	case "twoarms":
 		p.twoArms = true
 		p.enable, p.cancelMain, p.done, p.reportErr = 8, 2, 3, 4
+	case "overflow2":
+		// after an overflow and a drain: tokens, registrations, installs
+		p.token, p.register, p.report, p.unregister, p.enable, p.cancel, p.cancelMain, p.done = 8, 8, 12, 2, 0, 0, 0, 0
+		p.cbTake, p.cbRet, p.cbAck, p.invalid, p.bad = 14, 14, 14, 1, 0
 	case "overflow":
 		// callbacks are entered but never return until teardown: the queue fills up
 		p.cbRet, p.cbTake, p.report, p.mon = 0, 2, 40, 60
@@ -126,6 +130,13 @@ func (w *world) genValue(r *coqfmt.Rng, p policy) svJSON {
 	}
 	if r.Chance(1, 2) {
 		v.C = small()
+	}
+	// an inner struct may be present although its leaf is left unset
+	if v.B == nil && r.Chance(1, 2) {
+		v.NE = true
+	}
+	if v.C == nil && r.Chance(1, 2) {
+		v.PE = true
 	}
 	return v
 }
@@ -585,6 +596,35 @@ var scripts = map[string]script{
 		}
 		w.drainCb()
 	}},
+	// C06: the queue overflowed (new-config events were dropped), the callbacks caught up,
+	// and only then callbacks register - with a stale and with a fresh token - and more versions follow:
+	// the serial carried by the events, not the number of announcements, decides catch-up and skipping
+	"overflow-then-register": {oneWatcher, func(w *world) {
+		w.report(0, svJSON{C: iptr(1)}, false)
+		w.drainMon()
+		w.do(label{K: "take"}) // held in OnNewConfig
+		for i := 0; i < 70; i++ {
+			w.report(0, svJSON{C: iptr(i % 10)}, false)
+			w.drainMon()
+		}
+		w.drainCb() // everything queued is delivered; several versions were never announced
+		w.startOp(&opT{K: "token", Slot: 0})
+		w.report(0, svJSON{C: iptr(3)}, false)
+		w.drainMon()
+		w.drainCb()
+		r1 := w.startOp(&opT{K: "register", Slot: 0}) // stale by one: catch-up
+		w.finish(r1)
+		w.drainCb()
+		w.startOp(&opT{K: "token", Slot: 1})
+		r2 := w.startOp(&opT{K: "register", Slot: 1}) // fresh: no catch-up
+		w.finish(r2)
+		w.drainCb()
+		for i := 0; i < 3; i++ {
+			w.report(0, svJSON{C: iptr(4 + i)}, false)
+			w.drainMon()
+			w.drainCb() // both handles hear about every further version
+		}
+	}},
 	// C04/C07: rejected updates in all flavours, then recovery
 	"rejections": {setupT{Def: [3]int{1, 5, 0}, Watching: []bool{true, true}, Inits: []svJSON{{}, {}}}, func(w *world) {
 		t := w.report(0, svJSON{A: iptr(9)}, true) // verify error
@@ -645,7 +685,7 @@ var scripts = map[string]script{
 
 var scriptOrder = []string{"late-register", "double-unregister", "srcerr-delay-nosuppress", "srcerr-after-enable-suppress",
 	"enable-nomon", "enable-nomon-invalid", "race-register-after-store", "race-catchup", "abandoned-caller",
-	"blocked-callback", "overflow", "rejections", "enable-retry", "blank-setsource"}
+	"blocked-callback", "overflow", "overflow-then-register", "rejections", "enable-retry", "blank-setsource"}
 
 func init() {
 	for _, n := range scriptOrder {
